@@ -42,3 +42,14 @@ func (am *Machine) VerifRawDBGet(key string) ([]byte, error) { return am.db.Get(
 
 // VerifCloseDB closes the database so that the directory can be reopened.
 func (am *Machine) VerifCloseDB() error { return am.db.Close() }
+
+// VerifDBSnapshot returns every key/value pair of the machine's database.
+func (am *Machine) VerifDBSnapshot() map[string][]byte {
+	out := map[string][]byte{}
+	it := am.db.NewIterator(nil, nil)
+	defer it.Release()
+	for it.Next() {
+		out[string(it.Key())] = append([]byte(nil), it.Value()...)
+	}
+	return out
+}
